@@ -154,7 +154,7 @@ Definition S3 s := cL s + cN s + cU s.          (* producers inside Set() *)
 Definition D4 s := cL s + cN s + cU s + cF s.   (* producers that have decremented the counter *)
 
 (* what holds at each program point of the waiter *)
-Definition K (s : st) : Prop :=
+Definition K0 (s : st) : Prop :=
   match wp s with
   | WReg i | WRegCas i =>
       i < n s /\ wc s <= i /\ (on s = 0 -> cnt s + D4 s = S (n s)) /\
@@ -163,33 +163,47 @@ Definition K (s : st) : Prop :=
       on s = 0 /\ 1 <= wc s /\ cnt s + D4 s = S (n s) /\
       S3 s = 0 /\ rd s = 0 /\ cZ s = 0 /\ tmo s = 0 /\ ret s = None
   | WPreLock | WLocked1 =>
-      1 <= wc s /\ (on s = 0 -> cnt s + D4 s = wc s) /\ cZ s = 0 /\ tmo s = 0 /\ ret s = None
+      1 <= wc s /\ (on s = 0 -> cnt s + D4 s = wc s) /\ cZ s = 0 /\ tmo s = 0 /\ ret s = None /\
+      (on s = 0 -> cnt s = 0 -> 1 <= S3 s + rd s)
   | WSleep1 =>
-      1 <= wc s /\ (on s = 0 -> cnt s + D4 s = wc s) /\ cZ s = 0 /\ ret s = None
+      1 <= wc s /\ (on s = 0 -> cnt s + D4 s = wc s) /\ cZ s = 0 /\ ret s = None /\
+      (on s = 0 -> cnt s = 0 -> 1 <= S3 s + rd s)
   | WNoPark =>
       1 <= wc s /\ (on s = 0 -> cnt s + D4 s = wc s) /\ cZ s = 0 /\ tmo s = 0 /\ rd s = 1 /\ tm s = 1 /\
       ret s = None
   | WRst i =>
       i < n s /\ 1 <= wc s /\ (on s = 0 -> cnt s + D4 s = wc s) /\
-      tm s = 1 /\ tmo s = 1 /\ rd s = 0 /\ rc s <= i /\ ret s = None
+      tm s = 1 /\ tmo s = 1 /\ rd s = 0 /\ rc s <= i /\ ret s = None /\
+      (on s = 0 -> cnt s = 0 -> 1 <= S3 s + rd s)
   | WRstCas i v =>
       i < n s /\ 1 <= wc s /\ (on s = 0 -> cnt s + D4 s = wc s) /\
-      tm s = 1 /\ tmo s = 1 /\ rd s = 0 /\ rc s <= i /\ ret s = None /\ v = WC
+      tm s = 1 /\ tmo s = 1 /\ rd s = 0 /\ rc s <= i /\ ret s = None /\ v = WC /\
+      (on s = 0 -> cnt s = 0 -> 1 <= S3 s + rd s)
   | WSub2 =>
       on s = 0 /\ cnt s + D4 s = wc s /\
       tm s = 1 /\ tmo s = 1 /\ rd s = 0 /\ 1 <= rc s /\ rc s <> wc s /\ cA s = 0 /\ ret s = None
   | WLocked2 =>
       1 <= wc s /\ (on s = 0 -> cnt s + D4 s + rc s = wc s) /\ (on s = 1 -> rc s = 0) /\
-      tm s = 1 /\ tmo s = 1 /\ rd s = 0 /\ cA s = 0 /\ ret s = None
+      tm s = 1 /\ tmo s = 1 /\ rd s = 0 /\ cA s = 0 /\ ret s = None /\
+      (on s = 0 -> cnt s = 0 -> 1 <= S3 s + rd s)
   | WSleep2 =>
       1 <= wc s /\ (on s = 0 -> cnt s + D4 s + rc s = wc s) /\ (on s = 1 -> rc s = 0) /\
-      tm s = 1 /\ tmo s = 1 /\ cA s = 0 /\ ret s = None
+      tm s = 1 /\ tmo s = 1 /\ cA s = 0 /\ ret s = None /\
+      (on s = 0 -> cnt s = 0 -> 1 <= S3 s + rd s)
   | WRetL b | WRet b =>
       cA s = 0 /\ cH s = 0 /\ S3 s = 0 /\ (b2n b = 0 -> tm s = 1 /\ tmo s = 1) /\ ret s = None
   | WDone =>
       cA s = 0 /\ cH s = 0 /\ S3 s = 0 /\
       match ret s with Some b => (b2n b = 0 -> tm s = 1 /\ tmo s = 1) | None => False end
   end.
+
+(* no lost wake-up: a parked waiter whose flag is set has been notified; a producer past its notify has set the flag;
+   on the single-future path a finished Set() has set the flag *)
+Definition nt s := b2n (notified s).
+Definition NL (s : st) : Prop :=
+  b2n (parked s) + rd s <= 1 + nt s /\ cU s <= rd s /\ (on s = 1 -> cF s <= rd s).
+
+Definition K (s : st) : Prop := NL s /\ K0 s.
 
 Definition Glob (s : st) : Prop :=
   length (futs s) = n s /\ 1 <= n s /\ (on s = 1 -> n s = 1) /\
@@ -254,9 +268,9 @@ Ltac recounts i f' f Ef :=
 
 Ltac bounds s :=
   pose proof (b2n_le (ready s)); pose proof (b2n_le (one s)); pose proof (b2n_le (timed s));
-  pose proof (b2n_le (timedout s)); pose proof (b2n_le (alive s)).
+  pose proof (b2n_le (timedout s)); pose proof (b2n_le (alive s)); pose proof (b2n_le (notified s)).
 
-Ltac unf := unfold Glob, K, S3, D4, rd, on, tm, tmo, cA, cH, cL, cN, cU, cF, cZ, cReg in *.
+Ltac unf := unfold Glob, K, NL, K0, S3, D4, rd, on, tm, tmo, nt, parked, cA, cH, cL, cN, cU, cF, cZ, cReg in *.
 
 Ltac splits := repeat match goal with |- _ /\ _ => split end.
 Ltac dests := repeat match goal with H : _ /\ _ |- _ => destruct H end.
@@ -334,4 +348,59 @@ Proof.
   - apply (count_zero _ _ HA j g Eg).
   - apply (count_zero _ _ HZ j g Eg).
 Qed.
+
+
+(* ---- tactics for the producers' events ------------------------------------------------------------ *)
+
+Ltac prelude P H i :=
+  simpl in H;
+  let f := fresh "f" in
+  destruct (nth_error (futs _) i) as [f|] eqn:Ef; [|discriminate];
+  destruct (P i f Ef) as [Hok Hpos];
+  destruct f as [w p sl rg rs]; simpl in H;
+  destruct p; try discriminate;
+  unfold fokb in Hok; simpl in Hok;
+  destruct w, sl, rg, rs; simpl in Hok; try discriminate Hok.
+
+(* the pointwise part when future i is replaced and the waiter did not move *)
+Ltac bsolve :=
+  simpl in *;
+  repeat match goal with
+         | |- context [Nat.ltb ?a ?b] => let E := fresh "E" in destruct (Nat.ltb a b) eqn:E; rewrite ?E in *; clear E; simpl in *
+         | |- context [Nat.leb ?a ?b] => let E := fresh "E" in destruct (Nat.leb a b) eqn:E; rewrite ?E in *; clear E; simpl in *
+         | H : context [Nat.ltb ?a ?b] |- _ => let E := fresh "E" in destruct (Nat.ltb a b) eqn:E; rewrite ?E in *; clear E; simpl in *
+         | H : context [Nat.leb ?a ?b] |- _ => let E := fresh "E" in destruct (Nat.leb a b) eqn:E; rewrite ?E in *; clear E; simpl in *
+         | b : bool |- _ => destruct b; simpl in *
+         end;
+  try assumption; try discriminate; try reflexivity.
+
+Ltac pw_prod P :=
+  match goal with Ef : nth_error _ ?i = Some _ |- _ =>
+    eapply pw_set_nth with (1:=P) (2:=Ef); [reflexivity|reflexivity|..]; simpl;
+    [ unfold fokb; simpl; try reflexivity; try assumption
+    | unfold posb, cleanb in *; simpl in *; destruct (wp _); simpl in *; try assumption; try discriminate;
+      try (destruct (ret _); simpl in *; try assumption; try discriminate); bsolve
+    | auto ]
+  end.
+
+Ltac glob_prod P G :=
+  match type of P with PW ?s => pose proof (reg_split_s s P) as Hsplit; pose proof (count_le_length isA (futs s)) as HleA;
+     pose proof (count_le_length freg (futs s)) as HleR end;
+  unf; simpl; rewrite ?set_nth_length;
+  match goal with Ef : nth_error _ ?i = Some ?f |- context [set_nth ?i ?f' _] => recounts i f' f Ef end;
+  destruct G as (G1&G2&G3&G4&G5&G6&G7&G8&G9&G10&G11&G12&G13&G14&G15&GK).
+
+Ltac by_cases s :=
+  bounds s; destruct (wp s) eqn:Ewp; simpl in *; rewrite ?orb_true_r, ?orb_false_r in *; simpl in *; dests;
+  try (exfalso; lia); splits; fin.
+
+Ltac ltb_facts :=
+  repeat match goal with
+         | H : context [Nat.ltb ?a ?b] |- _ => destruct (Nat.ltb_spec a b)
+         | |- context [Nat.ltb ?a ?b] => destruct (Nat.ltb_spec a b)
+         end.
+
+Ltac mtx_cases s H :=
+  unfold is_free, holds in H; destruct (mtx s) as [[|?k]|] eqn:Em; simpl in H; try discriminate H;
+  try match type of H with context [Nat.eqb ?a ?b] => destruct (Nat.eqb a b) eqn:?; simpl in H; try discriminate H end.
 
